@@ -22,7 +22,8 @@ const char* H_PROP = "C02";
 bool H_TSO = true;
 
 std::string h_gen(Src& s) {
-    int par = s.range(1, 4); int nt = s.range(1, 4); if (nt == 1 && s.flip()) nt = 2;
+    int par = s.range(1, 4); if (par == 1 && drv_flag("--no-soft0")) par = 2;   // assertion flavour: known finding C02-update-allotment-assert
+    int nt = s.range(1, 4); if (nt == 1 && s.flip()) nt = 2;
     int na = 1 + (int)s.weighted({ 4, 3, 1 }); int nq = nt >= 2 ? (int)s.weighted({ 3, 4, 1 }) : 0; int nm = (int)s.choose(3), nrw = (int)s.choose(2);
     bool fin = s.coin(4);
     std::string cfg = "cfg par=" + std::to_string(par) + " fin=" + std::to_string(fin) + " arenas=";
